@@ -186,6 +186,10 @@ pub enum ColrFault {
     PaintScalar { k: u32, idx: u32, v: u16 },
     /// 32-bit Fixed component `idx` of the matrix of the k-th reachable PaintTransform := v
     MatrixComponent { k: u32, idx: u32, v: u32 },
+    /// a chain of n nested paints (kind 0 translate, 1 scale, 2 rotate, 3 skew, 4 PaintGlyph, 5 all of them in turn)
+    /// ending in a PaintSolid is appended to the table and base record r's root is redirected to it: a graph that
+    /// is deep without being cyclic (offsets only point forward, so no cycle guard sees it)
+    DeepChain { r: u32, n: u32, kind: u8 },
     BitFlip { bit: u32 },
     Truncate { keep_permille: u32 },
     /// a 32-bit field (offsets, variation index bases, counts) set to an extreme value
@@ -486,6 +490,41 @@ fn apply_faults(cf: &ColorFont, faults: &[ColrFault], touched: &mut Vec<u32>, st
                     }
                 }
             }
+            ColrFault::DeepChain { r, n, kind } if nb > 0 => {
+                let (sr, bbase, gid) = cf.base_slots[(*r % nb) as usize];
+                while c.len() % 4 != 0 {
+                    c.push(0);
+                }
+                let start = c.len();
+                for i in 0..*n {
+                    let k = if *kind == 5 { (i % 5) as u8 } else { *kind % 5 };
+                    let (fmt, size): (u8, u32) = match k {
+                        0 => (14, 8),
+                        1 => (16, 8),
+                        2 => (24, 6),
+                        3 => (28, 8),
+                        _ => (10, 6),
+                    };
+                    c.push(fmt);
+                    c.extend_from_slice(&size.to_be_bytes()[1..]); // child = the next record
+                    match k {
+                        0 => c.extend_from_slice(&[0, 1, 0, 1]),       // dx = dy = 1
+                        1 => c.extend_from_slice(&[0x40, 0, 0x40, 0]), // scale 1.0
+                        2 => c.extend_from_slice(&[0x00, 0x10]),       // a small angle
+                        3 => c.extend_from_slice(&[0, 0x10, 0, 0]),
+                        _ => c.extend_from_slice(&[0, 0]),             // glyph 0
+                    }
+                }
+                c.extend_from_slice(&[2, 0, 0, 0x40, 0]); // PaintSolid, palette entry 0, alpha 1.0
+                if wr(&mut c, sr, start as i64 - bbase as i64) {
+                    stats.bump("fault.colr.root_redirected_to_deep_acyclic_chain");
+                    touched.push(gid as u32);
+                    if *n >= 1000 {
+                        // marker for the oracle: far deeper than any depth limit a renderer could mean
+                        touched.push(0x4000_0000 | gid as u32);
+                    }
+                }
+            }
             ColrFault::ColorLine { k, extend, stops } => {
                 let grads: Vec<&(u16, usize)> = cf.paints.iter().filter(|(_, at)| matches!(cf.colr.get(*at), Some(4..=9))).collect();
                 if !grads.is_empty() {
@@ -623,7 +662,9 @@ impl Engine for PaintMonitor {
                 5 => ColrFault::RootBecomesColrGlyph { r: a, q: if rng.chance(1, 3) { a } else { b } },
                 6 => ColrFault::LayerBecomesColrGlyph { k: a, q: b },
                 7 if rng.chance(1, 2) => {
-                    if rng.chance(1, 2) {
+                    if rng.chance(1, 3) {
+                        ColrFault::DeepChain { r: a, n: *rng.pick(&[63u32, 64, 65, 100, 1000, 1000, 3000]), kind: rng.below(6) as u8 }
+                    } else if rng.chance(1, 2) {
                         ColrFault::GlyphChildBecomesSelf { r: a }
                     } else {
                         ColrFault::GlyphChildBecomesOwnLayers { r: a }
@@ -677,7 +718,8 @@ impl Engine for PaintMonitor {
         let coords: Vec<NormalizedCoord> = t.coords.iter().map(|c| NormalizedCoord::from_bits(*c)).collect();
         let cg = font.color_glyphs();
         let certain_cycle: Vec<u32> = touched.iter().filter(|g| **g & 0x8000_0000 != 0).map(|g| g & 0xFFFF).collect();
-        touched.retain(|g| *g & 0x8000_0000 == 0);
+        let certain_deep: Vec<u32> = touched.iter().filter(|g| **g & 0x4000_0000 != 0).map(|g| g & 0xFFFF).collect();
+        touched.retain(|g| *g & 0xC000_0000 == 0);
         // the expectation is only sound when this is the single fault and the client never paints from its cache
         let expect_cycle_error = t.faults.len() == 1 && t.cache_answers.iter().all(|a| *a == 0);
         let mut glyphs = touched.clone();
@@ -712,6 +754,9 @@ impl Engine for PaintMonitor {
                         if expect_cycle_error && matches!(fmt, ColorGlyphFormat::ColrV1) && certain_cycle.contains(&g) {
                             return Verdict::Fail(Violation::new("C13", "C13.cycle_reported", format!("glyph {g} of {} was made self-referential below an unconditionally traversed PaintGlyph, yet paint reported success ({} callbacks)", cf.name, m.events)));
                         }
+                        if t.faults.len() == 1 && matches!(fmt, ColorGlyphFormat::ColrV1) && certain_deep.contains(&g) {
+                            return Verdict::Fail(Violation::new("C13", "C13.depth_reported", format!("glyph {g} of {} was given an acyclic paint chain at least 1000 levels deep, yet paint reported success (deepest callback nesting {}, {} callbacks)", cf.name, m.max_depth, m.events)));
+                        }
                         if let Some(why) = &m.bad {
                             return Verdict::Fail(Violation::new("C13", "C13.nesting", format!("paint of glyph {g} of {} reported success but {why}", cf.name)));
                         }
@@ -722,6 +767,9 @@ impl Engine for PaintMonitor {
                     Err(e) => {
                         if expect_cycle_error && certain_cycle.contains(&g) {
                             stats.bump("oracle.C13.certain_cycle_reported_as_error");
+                        }
+                        if t.faults.len() == 1 && certain_deep.contains(&g) {
+                            stats.bump("oracle.C13.certain_depth_reported_as_error");
                         }
                         let s = format!("{e:?}");
                         if s.starts_with("PaintCycleDetected") {
